@@ -26,12 +26,14 @@ theorem mem_mapTextList (f : Str → Str) : ∀ (cs : List Tree) (ch' : Tree), c
 /-- **C13 (every child a valid instance holds is written under its tag and read back).** For a valid
     instance of a class that satisfies the static clauses, every non-`None` value held under a non-repeated
     attribute `n` is written as a child whose tag lower-cases to `n`, and the library's reader converts the
-    written tree back into the very same instance (so the child is read back into the same attribute). -/
+    written tree back into the very same instance (so the child is read back into the same attribute).  (`hplain`:
+    the three classes with a `groom` rename write that one child under the renamed tag by design.) -/
 theorem C13_child_written_and_read (S : Schema) (cv : Conv) (esc : Str → Str)
     (Dom : Kind → Bool → Val → Prop) (laws : ConvLaws cv S.enums esc Dom)
     (hnone : ∀ k r v, cv.convert S.enums k r .none = .ok v → v = .none)
     (ci : Nat) (fields : List (Str × Node)) (items : List Node)
     (hv : Valid S cv esc Dom (.agg ci fields items))
+    (hplain : ∀ c, S.cls? ci = some c → c.groom = none)
     (n : Str) (w : Node) (hm : (n, w) ∈ fields) (hw : w ≠ .val .none) :
     ∃ tag x tl children, toEtree S cv (.agg ci fields items) = .ok (.node tag x tl children) ∧
       fromEtree S cv (mapText esc (.node tag x tl children)) = .ok (.agg ci fields items) ∧
@@ -45,7 +47,7 @@ theorem C13_child_written_and_read (S : Schema) (cv : Conv) (esc : Str → Str)
     simp only [Tree.tag] at hshape
     simp only [mapText] at hrt
     obtain ⟨a, _, _, ch', hch', hd, hl, _⟩ := C03_nothing_invented S cv tag (x.map esc) tl
-      (mapTextList esc children) ci c fields items ci (by rw [hshape.1]; exact ok.hfind) ok.hc ok.hg
+      (mapTextList esc children) ci c fields items ci (by rw [hshape.1]; exact ok.hfind) ok.hc (hplain c ok.hc)
       ok.wf.nodup hnone hrt n w hm hw
     obtain ⟨ch, hch, htag⟩ := mem_mapTextList esc children ch' hch'
     exact ⟨ch, hch, by rw [← htag]; exact hl, by rw [← htag]; exact hd⟩
@@ -54,7 +56,8 @@ theorem C13_child_written_and_read (S : Schema) (cv : Conv) (esc : Str → Str)
 theorem C13_member_written_and_read (S : Schema) (cv : Conv) (esc : Str → Str)
     (Dom : Kind → Bool → Val → Prop) (laws : ConvLaws cv S.enums esc Dom)
     (ci : Nat) (fields : List (Str × Node)) (items : List Node)
-    (hv : Valid S cv esc Dom (.agg ci fields items)) (m : Node) (hm : m ∈ items) :
+    (hv : Valid S cv esc Dom (.agg ci fields items))
+    (hplain : ∀ c, S.cls? ci = some c → c.groom = none) (m : Node) (hm : m ∈ items) :
     ∃ c tag x tl children, S.cls? ci = some c ∧ toEtree S cv (.agg ci fields items) = .ok (.node tag x tl children) ∧
       fromEtree S cv (mapText esc (.node tag x tl children)) = .ok (.agg ci fields items) ∧
       ∃ ch ∈ children, isListMember c (lower ch.tag) = true ∧ '.' ∉ ch.tag := by
@@ -67,7 +70,7 @@ theorem C13_member_written_and_read (S : Schema) (cv : Conv) (esc : Str → Str)
     simp only [Tree.tag] at hshape
     simp only [mapText] at hrt
     obtain ⟨ch', hch', hd, hl, _⟩ := C03_members_from_children S cv tag (x.map esc) tl
-      (mapTextList esc children) ci c fields items ci (by rw [hshape.1]; exact ok.hfind) ok.hc ok.hg ok.hel
+      (mapTextList esc children) ci c fields items ci (by rw [hshape.1]; exact ok.hfind) ok.hc (hplain c ok.hc)
       hrt m hm
     obtain ⟨ch, hch, htag⟩ := mem_mapTextList esc children ch' hch'
     exact ⟨ch, hch, by rw [← htag]; exact hl, by rw [← htag]; exact hd⟩
